@@ -538,7 +538,7 @@ func modelBranch(a *Abs, args []string) []Out {
 func modelSwitch(a *Abs, args []string) []Out {
 	tip := a.Tip()
 	switch {
-	case len(args) == 1 && !strings.HasPrefix(args[0], "-"):
+	case len(args) == 1 && (!strings.HasPrefix(args[0], "-") || args[0] == "-"):
 		n := args[0]
 		if _, ex := a.Branches[n]; !ex {
 			return []Out{a.refused()}
